@@ -761,6 +761,32 @@ func genC03(repo string) (string, error) {
 	fmt.Fprintf(&sb, "def afterAddCheck : String := %s\n", strconv.Quote(findIfCond(FindFunc(cj, "compactFlusher", "afterAdd"), "maxFileSize")))
 	fmt.Fprintf(&sb, "def doMergeCalls : List String := %s\n", LeanStrList(CallSeq(FindFunc(cj, "compactJob", "doMerge"))))
 	fmt.Fprintf(&sb, "def installCalls : List String := %s\n", LeanStrList(CallSeq(FindFunc(cj, "compactJob", "installCompactionResults"))))
+	// round 10: positional TSD decoders shared by the fields and series of one Merge call
+	if _, tsdF, err := ParseFile(repo, "pkg/encoding/tsd.go"); err == nil {
+		fmt.Fprintf(&sb, "/-- `TSDDecoder.HasValueWithSlot`: its if-tree (range test, then the position test with `idx++`); the statements of\n`ResetWithTimeRange`; `seriesMerger.merge`: its if-tree (a decoder is reset only under `len(fieldData) > 0`); `merger.Merge`: where\nthe decoder slice is allocated (once per call) -/\n")
+		fmt.Fprintf(&sb, "def hasValueWithSlotIfTree : List String := %s\n", LeanStrList(ifTreeRet(FindFunc(tsdF, "TSDDecoder", "HasValueWithSlot"))))
+		fmt.Fprintf(&sb, "def hasValueWithSlotStmts : List String := %s\n", LeanStrList(stmtHeads(FindFunc(tsdF, "TSDDecoder", "HasValueWithSlot"))))
+		fmt.Fprintf(&sb, "def tsdResetAssigns : List String := %s\n", LeanStrList(assignsIn(FindFunc(tsdF, "TSDDecoder", "reset"), "d.idx")))
+		fmt.Fprintf(&sb, "def resetWithTimeRangeStmts : List String := %s\n", LeanStrList(stmtHeads(FindFunc(tsdF, "TSDDecoder", "ResetWithTimeRange"))))
+	}
+	if _, smF, err := ParseFile(repo, "tsdb/tblstore/metricsdata/series_merger.go"); err == nil {
+		fmt.Fprintf(&sb, "def seriesMergeIfTree : List String := %s\n", LeanStrList(ifTreeRet(FindFunc(smF, "seriesMerger", "merge"))))
+	}
+	if _, mgF, err := ParseFile(repo, "tsdb/tblstore/metricsdata/merger.go"); err == nil {
+		fmt.Fprintf(&sb, "def mergeDecoderAlloc : List String := %s\n", LeanStrList(filterContains(stmtHeads(FindFunc(mgF, "merger", "Merge")), "decodeStreams")))
+	}
+	// round 10: opening the inputs of a merge job (makeInputIterator) and the error propagation of doMerge
+	mii := FindFunc(cj, "compactJob", "makeInputIterator")
+	miiTree := ifTreeRet(mii)
+	miiExits := loopExits(mii)
+	fmt.Fprintf(&sb, "/-- `compactJob.makeInputIterator`: its if-tree, the statements that leave one of its loops early, its calls;\n`openErrorAborts`: the error branch of `GetReader` is `return nil, err` and nothing else leaves a loop (no input is skipped) -/\n")
+	fmt.Fprintf(&sb, "def makeInputIteratorIfTree : List String := %s\n", LeanStrList(miiTree))
+	fmt.Fprintf(&sb, "def makeInputIteratorLoopExits : List String := %s\n", LeanStrList(miiExits))
+	fmt.Fprintf(&sb, "def makeInputIteratorCalls : List String := %s\n", LeanStrList(CallSeq(mii)))
+	openAborts := len(miiExits) == 1 && miiExits[0] == "return" && len(miiTree) == 2 && miiTree[1] == "1:err != nil -> return nil, err"
+	fmt.Fprintf(&sb, "def openErrorAborts : Bool := %v\n", openAborts)
+	fmt.Fprintf(&sb, "/-- `compactJob.doMerge`: every `if` with the last statement of its body (each error is returned) -/\n")
+	fmt.Fprintf(&sb, "def doMergeIfTree : List String := %s\n", LeanStrList(ifTreeRet(FindFunc(cj, "compactJob", "doMerge"))))
 	_, vv, err := ParseFile(repo, "kv/version/version.go")
 	if err != nil {
 		return "", err
